@@ -165,39 +165,55 @@ PullStart(w, chs) ==
      /\ last' = [op |-> "pull", w |-> w, chs |-> chs, got |-> r.s]
   /\ UNCHANGED <<count, job, id2job, wake, now, stats, fwait, draining>>
 
-(* the resumption of a blocked puller: `finally: _waiters.remove`, then rpc_qpull records the job.
-   Reference: a job that finished while in the mailbox is discarded and the pop is retried. *)
-DeliverValue(w) ==
-  IF ~waiter[w].on \/ waiter[w].box = NoJob
-  THEN UNCHANGED <<heap, waiter, conn, running>>      \* stale notification (of an AsyncResult that is gone)
-  ELSE LET b   == waiter[w].box
-           off == [waiter EXCEPT ![w] = [on |-> FALSE, chs |-> {}, box |-> NoJob]] IN
-       IF job[b].done /\ ~DeliverDone
-       THEN LET r == PopNow(job, heap, waiter[w].chs) IN
-            /\ heap' = r.heap
-            /\ IF r.found
-               THEN /\ waiter' = off
-                    /\ running' = [running EXCEPT ![w] = AddRun(@, r.s)]
-                    /\ conn' = [conn EXCEPT ![w] = IF @ = "blocked" THEN "idle" ELSE @]
-               ELSE /\ waiter' = [waiter EXCEPT ![w].box = NoJob]
-                    /\ UNCHANGED <<running, conn>>
-       ELSE /\ waiter' = off
-            /\ running' = [running EXCEPT ![w] = AddRun(@, b)]
-            /\ conn' = [conn EXCEPT ![w] = IF @ = "blocked" THEN "idle" ELSE @]
-            /\ UNCHANGED heap
+(* QPlugin.shutdown as handle_client's `finally` runs it: re-queue the unfinished jobs of
+   connection w (reference) and forget the connection.  st carries waiter/heap/wake. *)
+ShutdownOf(w, st, run) ==
+  PushAll({st}, SelectSeq(run, LAMBDA s : RequeueDone \/ ~job[s].done))
 
-(* GreenletExit reaches connection w: pop's exception path (if still registered), then shutdown *)
+(* the resumption of a blocked puller: `finally: _waiters.remove`, then rpc_qpull records the job.
+   Reference: a job that finished while in the mailbox is discarded and the pop is retried.
+   If the connection's EOF has been seen meanwhile ("closing"), the client greenlet finds the
+   empty line in its queue right after answering and leaves its loop: shutdown runs in the very
+   same callback, before the kill that is still queued arrives. *)
+DeliverValue(w, rest) ==
+  IF ~waiter[w].on \/ waiter[w].box = NoJob
+  THEN /\ wake' = rest                       \* stale notification (of an AsyncResult that is gone)
+       /\ UNCHANGED <<heap, waiter, conn, running>>
+  ELSE LET b   == waiter[w].box
+           off == [waiter EXCEPT ![w] = [on |-> FALSE, chs |-> {}, box |-> NoJob]]
+           retry == job[b].done /\ ~DeliverDone
+           r   == PopNow(job, heap, waiter[w].chs)
+           got == IF retry THEN r.s ELSE b
+           hp  == IF retry THEN r.heap ELSE heap IN
+       IF retry /\ ~r.found
+       THEN /\ waiter' = [waiter EXCEPT ![w].box = NoJob]          \* blocks again
+            /\ heap' = hp /\ wake' = rest
+            /\ UNCHANGED <<running, conn>>
+       ELSE IF conn[w] = "closing"
+       THEN /\ \E st \in ShutdownOf(w, St(off, hp, rest), AddRun(running[w], got)) :
+                 waiter' = st.waiter /\ heap' = st.heap /\ wake' = st.wake
+            /\ running' = [running EXCEPT ![w] = <<>>]
+            /\ conn' = [conn EXCEPT ![w] = "closed"]
+       ELSE /\ waiter' = off /\ heap' = hp /\ wake' = rest
+            /\ running' = [running EXCEPT ![w] = AddRun(@, got)]
+            /\ conn' = [conn EXCEPT ![w] = "idle"]
+
+(* GreenletExit reaches connection w while it is blocked in pop: pop's exception path re-queues a
+   job already sitting in the mailbox (reference), then shutdown.  A kill that arrives after the
+   connection has already shut down is a no-op. *)
 Requeued(w) ==
   (IF waiter[w].on /\ waiter[w].box # NoJob /\ ~DropOnKill /\ (RequeueDone \/ ~job[waiter[w].box].done)
    THEN <<waiter[w].box>> ELSE <<>>)
   \o SelectSeq(running[w], LAMBDA s : RequeueDone \/ ~job[s].done)
 
 DeliverKill(w, rest) ==
-  LET off == [waiter EXCEPT ![w] = [on |-> FALSE, chs |-> {}, box |-> NoJob]] IN
-  /\ \E st \in PushAll({St(off, heap, rest)}, Requeued(w)) :
-       waiter' = st.waiter /\ heap' = st.heap /\ wake' = st.wake
-  /\ running' = [running EXCEPT ![w] = <<>>]
-  /\ conn' = [conn EXCEPT ![w] = "closed"]
+  IF conn[w] # "closing"
+  THEN wake' = rest /\ UNCHANGED <<heap, waiter, conn, running>>
+  ELSE LET off == [waiter EXCEPT ![w] = [on |-> FALSE, chs |-> {}, box |-> NoJob]] IN
+       /\ \E st \in PushAll({St(off, heap, rest)}, Requeued(w)) :
+            waiter' = st.waiter /\ heap' = st.heap /\ wake' = st.wake
+       /\ running' = [running EXCEPT ![w] = <<>>]
+       /\ conn' = [conn EXCEPT ![w] = "closed"]
 
 (* a client blocked in waitjobs is resumed: released iff its job is done *)
 DeliverEvt(c) ==
@@ -211,7 +227,7 @@ Deliver ==
   /\ wake # <<>>
   /\ (AtomicDrain => draining)
   /\ LET e == Head(wake) IN
-     /\ CASE e.k = "value" -> /\ DeliverValue(e.w) /\ wake' = Tail(wake) /\ UNCHANGED <<fwait, id2job>>
+     /\ CASE e.k = "value" -> /\ DeliverValue(e.w, Tail(wake)) /\ UNCHANGED <<fwait, id2job>>
           [] e.k = "kill"  -> /\ DeliverKill(e.w, Tail(wake)) /\ UNCHANGED <<fwait, id2job>>
           [] e.k = "evt"   -> /\ DeliverEvt(e.w) /\ wake' = Tail(wake) /\ UNCHANGED <<heap, waiter, conn, running>>
      /\ last' = [op |-> "deliver", k |-> e.k, w |-> e.w]
@@ -262,13 +278,21 @@ AdvanceClock ==
   /\ last' = [op |-> "tick"]
   /\ UNCHANGED <<count, id2job, waiter, conn, running, fwait, draining>>
 
-(* EOF on connection w: the reader greenlet's link kills the connection's greenlet via the hub *)
+(* EOF on connection w.  An idle connection's client greenlet reads the empty line and leaves its
+   loop at once: shutdown runs right here.  A connection blocked in pull is killed through the
+   hub (reader greenlet's link -> kill): that GreenletExit arrives as a later callback. *)
 Disconnect(w) ==
   /\ Quiet /\ conn[w] \in {"idle", "blocked"}
-  /\ conn' = [conn EXCEPT ![w] = "closing"]
-  /\ wake' = Append(wake, [k |-> "kill", w |-> w])
+  /\ IF conn[w] = "idle"
+     THEN /\ \E st \in ShutdownOf(w, St(waiter, heap, wake), running[w]) :
+               waiter' = st.waiter /\ heap' = st.heap /\ wake' = st.wake
+          /\ running' = [running EXCEPT ![w] = <<>>]
+          /\ conn' = [conn EXCEPT ![w] = "closed"]
+     ELSE /\ conn' = [conn EXCEPT ![w] = "closing"]
+          /\ wake' = Append(wake, [k |-> "kill", w |-> w])
+          /\ UNCHANGED <<heap, waiter, running>>
   /\ last' = [op |-> "disconnect", w |-> w]
-  /\ UNCHANGED <<count, job, id2job, heap, waiter, running, now, stats, fwait, draining>>
+  /\ UNCHANGED <<count, job, id2job, now, stats, fwait, draining>>
 
 Reconnect(w) ==
   /\ WithReconnect /\ Quiet /\ conn[w] = "closed"
